@@ -254,7 +254,7 @@ func readLogFrom(src io.Reader, n int, drw *dialect.ReadWriter) ([]*tlog.Entry, 
 
 func TestC20Logs(t *testing.T) {
 	rec := evid.New(t, "C20", "generated entry sequences (0..30 entries: v1/v2/signed frames, raw and dialect messages, times on both sides of the epoch with sub-microsecond parts, unencodable entries interleaved) written with tlog.Writer; oracles: file bytes == concatenation of BE64(floor(t,us)) ++ reference frame bytes, unencodable entries return an error and leave the file untouched, read-back equals what was written, every truncation point of the file yields exactly the complete entries before the cut and then an error, a failing io.Writer is reported; non-trivial = >=3 entries of mixed versions with a negative or sub-us timestamp, or an unencodable entry between good ones; distinct by hash of the file")
-	rec.Require("cut-in-timestamp", "cut-in-header", "cut-in-payload", "cut-in-signature", "bad-entry-between-good", "negative-time", "sub-us", "writer-fault", "writer-fault-on-a-file-like-sink", "dialect", "longer-than-reader-window", "longer-than-3-reader-windows", "file-arrives-in-pieces", "unsigned-entry-with-leftover-signature-fields")
+	rec.Require("cut-in-timestamp", "cut-in-header", "cut-in-payload", "cut-in-signature", "bad-entry-between-good", "negative-time", "sub-us", "writer-fault", "writer-fault-on-a-file-like-sink", "entries-written-after-a-reported-sink-failure", "dialect", "longer-than-reader-window", "longer-than-3-reader-windows", "file-arrives-in-pieces", "unsigned-entry-with-leftover-signature-fields")
 	dpool := pool(t)
 	errBoom := errors.New("injected write error")
 	evid.Check(t, rec, evid.N(4000, 12000), func(t *rapid.T) {
@@ -465,13 +465,27 @@ func TestC20Logs(t *testing.T) {
 			}
 			reported := false
 			for i, e := range good {
+				before := fw2.buf.Len()
 				err := w2.Write(&tlog.Entry{Time: e.t, Frame: gen.ToLibEntry(e.lib)})
+				if reported {
+					// the sink works again: every later entry is written as if nothing had happened - its own
+					// bytes, and nothing of the entry whose Write was reported as failed
+					if err != nil {
+						t.Fatalf("entry %d, written after the sink had failed once (call %d) and recovered: Write returned %v", i, k, err)
+					}
+					if got := fw2.buf.Bytes()[before:]; !bytes.Equal(got, e.bytes) {
+						evid.ReplayNote("C20", "TestC20Logs", fmt.Sprintf("sink failed on call %d (mode %d), entry %d written afterwards appended %x, its own bytes are %x", k, fw2.mode, i, got, e.bytes))
+						t.Fatalf("the sink failed on its call %d (reported) and worked again afterwards; the Write of entry %d then appended %d bytes to the file, the entry itself is %d bytes:\n appended %x\n entry    %x", k, i, len(got), len(e.bytes), got, e.bytes)
+					}
+					rec.Class("entries-written-after-a-reported-sink-failure", 1)
+					continue
+				}
 				if fw2.calls >= k {
 					if err != errBoom && !errors.Is(err, errBoom) {
 						t.Fatalf("the io.Writer (also offering Sync/Flush/Close that succeed: %v) failed on its call %d (entry %d) but Write returned %v", fileLike, k, i, err)
 					}
 					reported = true
-					break
+					continue
 				}
 				if err != nil {
 					t.Fatalf("entry %d: Write failed with %v before the injected fault", i, err)
